@@ -30,13 +30,19 @@ RULE = ("random tables (0-10 rows, typed columns, small value pools) x random pr
         "sampled in quick, complete in thorough); 1 in 10 tables is given as an array of arrays (2-3 inner arrays)")
 
 
-def in_subq_factory(doc_other):
+def in_subq_factory(doc_other, names=(), kinds=()):
     def f(rnd, kind):
         cols = [k for k, kd in doc_other["kinds"].items() if kd == kind]
         if not cols:
             return None
         c = rnd.choice(cols)
-        return select([item(col(c))], table("u"))
+        wh = TRUE
+        outer = [n for n, k in zip(names, kinds) if k == kind]
+        if outer and rnd.random() < 0.35:
+            # a correlated sub-query: its own WHERE reads the OUTER row through `<-`, so the candidate set differs from row to row
+            wh = ["cmp", rnd.choice(["ge", "le", "ne", "lt", "gt", "eq"]), col(c), col("<-", rnd.choice(outer), style=1)]
+        frm = table("u") if rnd.random() < 0.6 else ["table", ["<-", "u"], "", "<-u", {"bt": True}]
+        return select([item(col(c))], frm, wh=wh)
     return f
 
 
@@ -58,7 +64,7 @@ def gen_case(rnd, depth):
                 r[n] = rnd.choice(rnd.choice(same))
     doc = {"t": rows, "u": rows2}
     other = {"kinds": dict(zip(n2, k2))}
-    p = gen_pred(rnd, names, kinds, pools, depth, in_subq=in_subq_factory(other))
+    p = gen_pred(rnd, names, kinds, pools, depth, in_subq=in_subq_factory(other, names, kinds))
     if rnd.random() < 0.15:
         p = ["and", p, ["is", rnd.choice(["null", "notNull"]), col("nz")]] if rnd.random() < 0.5 else \
             ["or", ["is", rnd.choice(["null", "notNull"]), col("nz")], p]
